@@ -390,6 +390,59 @@ fn compare<T: HS>(out: &mut Out<T>, name: &str, x: &FitOut<T>, y: &FitOut<T>, wh
     }
 }
 
+/// the returned state of a complete fit against its specification (one basis function, S right-hand sides): per column s
+/// the coefficient is the weighted least-squares optimum at alpha-hat, block s of the residual vector is
+/// W y_s - W phi(alpha-hat) c_s, and the reported objective is half the squared norm of the whole residual vector
+fn spec_check<T: HS>(out: &mut Out<T>, name: &str, inp: &FitInputs<T>, x: &FitOut<T>, twin: bool) {
+    let (Some(c), Some(r)) = (&x.coeff, &x.resid) else { return };
+    let zero = T::ratio(0, 1);
+    let one = T::ratio(1, 1);
+    let n = inp.n;
+    let s_cols = c.ncols();
+    let wi = |i: usize| inp.w.as_ref().map(|w| w[i]).unwrap_or(one);
+    // phi(alpha-hat)
+    let mut phi = inp.a.clone();
+    for (k, bk) in inp.b.iter().enumerate() {
+        phi = DMatrix::from_fn(n, 1, |i, j| phi[(i, j)] + x.alpha[k] * bk[(i, j)]);
+    }
+    let wphi: Vec<T> = (0..n).map(|i| wi(i) * phi[(i, 0)]).collect();
+    let eps = <T as num_traits::Float>::epsilon();
+    let mut den = zero;
+    for i in 0..n {
+        den = den + wphi[i] * wphi[i];
+    }
+    out.fact(&format!("{name}.shapes"), r.len() == n * s_cols && c.nrows() == 1, format!("residual vector of length {} for {} samples and {} right-hand sides", r.len(), n, s_cols));
+    if r.len() != n * s_cols {
+        return;
+    }
+    let (nf, nd, nr, no) = (format!("{name}.coefficients_optimal[full]"), format!("{name}.coefficients_optimal[deficient]"), format!("{name}.residual_blocks"), format!("{name}.objective_is_half_squared_norm"));
+    let mut obj = zero;
+    for col in 0..s_cols {
+        let wy: Vec<T> = (0..n).map(|i| (if twin && i == 0 { wi(i) + one } else { wi(i) }) * inp.y[(i, col)]).collect();
+        let mut num = zero;
+        for i in 0..n {
+            num = num + wphi[i] * wy[i];
+        }
+        out.eq(&nf, format!("c[0,{col}]*sum (w phi)^2"), c[(0, col)] * den, num);
+        out.eq(&nd, format!("c[0,{col}]"), c[(0, col)], zero);
+        for i in 0..n {
+            out.eq(&nr, format!("r[{i}; column {col}]"), r[col * n + i], wy[i] - wphi[i] * c[(0, col)]);
+            obj = obj + r[col * n + i] * r[col * n + i];
+            out.cut_for(&no, r[col * n + i]);
+            for nm in [&nf, &nd, &nr] {
+                out.cut_for(nm, wphi[i]);
+                if !twin {
+                    out.cut_for(nm, wy[i]);
+                }
+            }
+        }
+        out.cut_for(&nr, c[(0, col)]);
+    }
+    out.given(&nf, den, ">", eps * eps);
+    out.given(&nd, den, "<=", eps * eps);
+    out.eq(&no, "objective".into(), x.objective, obj * T::ratio(1, 2));
+}
+
 /// Scenario `relfit`: complete fits of the same inputs through different flavours, compared as terms.
 ///   kind=par   : sequential vs parallel constructor (vector API, or matrix API with S columns)        -> C11
 ///   kind=onecol: one-column matrix-API problem vs the vector-API problem                              -> C07
@@ -417,7 +470,11 @@ pub fn relfit<T: HS>(cfg: &Cfg, out: &mut Out<T>) {
                     if twin {
                         a.alpha[0] = a.alpha[0] + T::ratio(1, 1);
                     }
-                    compare(out, "C11.fit", &a, &b, "sequential vs parallel")
+                    compare(out, "C11.fit", &a, &b, "sequential vs parallel");
+                    if !twin {
+                        // the parallel fit against the specification of its returned state (matrix API: per column)
+                        spec_check(out, "C11.fit.state", &inp, &b, false);
+                    }
                 }
                 (None, None) => out.notes.push("both builds failed".into()),
                 _ => out.fact("C11.fit.same_outcome", false, "build succeeded in one flavour only".into()),
@@ -430,7 +487,10 @@ pub fn relfit<T: HS>(cfg: &Cfg, out: &mut Out<T>) {
                     if twin {
                         a.alpha[0] = a.alpha[0] + T::ratio(1, 1);
                     }
-                    compare(out, "C07.fit", &a, &b, "vector API vs one-column matrix API")
+                    compare(out, "C07.fit", &a, &b, "vector API vs one-column matrix API");
+                    if !twin {
+                        spec_check(out, "C07.fit.state", &inp, &b, false);
+                    }
                 }
                 (None, None) => out.notes.push("both builds failed".into()),
                 _ => out.fact("C07.fit.same_outcome", false, "build succeeded in one API only".into()),
@@ -647,6 +707,15 @@ pub fn run2<T: HS>(cfg: &Cfg, out: &mut Out<T>) {
     if weighted {
         bld = bld.weights(w.clone());
     }
+    // a user-supplied truncation threshold inside the loop (symbolic, possibly negative: |eps| counts)
+    let user_eps = match cfg.str("eps", "default").as_str() {
+        "sym" => Some(T::var("eps", 1, 2)),
+        "neg" => Some(T::var("eps", -1, 2)),
+        _ => None,
+    };
+    if let Some(e) = user_eps {
+        bld = bld.epsilon(e);
+    }
     let problem = match bld.build() {
         Ok(p) => p,
         Err(e) => {
@@ -712,13 +781,13 @@ pub fn run2<T: HS>(cfg: &Cfg, out: &mut Out<T>) {
         p,
         w: if weighted { Some(w.clone()) } else { None },
         y: y.clone(),
-        eps: None,
+        eps: user_eps,
         plants: vec![Some(spec_model.plant_at(&alpha_hat))],
         states: vec![State { phi: spec_model.phi_at(&alpha_hat), d: (0..p).map(|k| spec_model.deriv_at(&alpha_hat, k)).collect(), eval_fails: false, deriv_fails: None }],
         alphas: vec![alpha_hat.clone()],
         twin,
     };
-    check_state("", &inp, 0, default_eps::<T>(), &obs, out);
+    check_state("", &inp, 0, user_eps.map(|e| e.s_abs()).unwrap_or(default_eps::<T>()), &obs, out);
     if fail_at.is_none() {
         if let Some(r) = &obs.resid {
             let mut obj = zero;
